@@ -76,6 +76,10 @@ def gen_panel(r, g, n_geos, n_dates, cls='continuous', id_style='str', origin=No
   common = np.cumsum(g.normal(0, 1.0, size=D)) + 3.0 * np.sin(2 * np.pi * t / 7.0 + r.random() * 6)
   loadings = np.array([weighted(r, [(1.0, 5), (0.9, 2), (0.2, 1), (-0.5, 1)]) for _ in range(G)])
   noise_sc = np.array([weighted(r, [(0.1, 3), (0.5, 3), (1.5, 2), (3.0, 1)]) for _ in range(G)])
+  if cls == 'marginal':
+    # every geo equally noisy, tuned so that typical group correlations sit around min_corr (0.8)
+    noise_sc = np.full(G, r.uniform(1.5, 3.5))
+    loadings = np.ones(G)
   vals = np.empty((G, D))
   feats = []
   for i in range(G):
@@ -105,6 +109,16 @@ def gen_panel(r, g, n_geos, n_dates, cls='continuous', id_style='str', origin=No
       noise[-1] -= noise.sum()                      # zero-sum integer noise: the total stays size * sum(pattern)
       vals[i] = unit_sizes[i] * pattern + noise
     feats.append('dyadic')
+  if cls == 'near_twins' and G >= 3:
+    # geo b follows geo a almost perfectly (correlation above rho_max but below 1)
+    a, b = r.sample(range(G), 2)
+    vals[b] = r.choice([0.5, 1.0, 2.0]) * vals[a] + sizes[a] * 1e-3 * g.normal(0, 1.0, size=D)
+    feats.append('near_twins:%d,%d' % (a, b))
+  if cls == 'giant' and G >= 3:
+    # one geo is many orders of magnitude larger than the rest (e.g. a national aggregate row)
+    k = r.randrange(G)
+    vals[k] = vals[k] * 10.0 ** r.choice([9, 11, 13])
+    feats.append('giant:%d' % k)
   if cls == 'duplicates' and G >= 3:
     a, b = r.sample(range(G), 2)
     vals[b] = vals[a]
@@ -128,6 +142,12 @@ def gen_panel(r, g, n_geos, n_dates, cls='continuous', id_style='str', origin=No
     vals = vals * unit
   if date_style == 'iso':
     dates = [d.isoformat() for d in days]
+  elif date_style == 'tz':
+    dates = [pd.Timestamp(d, tz='US/Eastern') for d in days]
+  elif date_style == 'timeofday':
+    dates = [pd.Timestamp(d) + pd.Timedelta(hours=(8 if k % 2 else 20)) for k, d in enumerate(days)]
+  elif date_style == 'ns':
+    dates = [pd.Timestamp(d).as_unit('ns') for d in days]
   else:
     dates = [pd.Timestamp(d) for d in days]
   return {'ids': ids, 'dates': dates, 'days': days, 'values': vals, 'present': present,
@@ -360,7 +380,7 @@ def gen_params(r, panel, elig_rows, focus=None, allow=('size', 'ratio', 'volume'
 
 def gen_experiment(r, g, n_pre=None, n_test=None, n_cool=None, n_ctl=None, n_trt=None,
                    cost_mode=None, shape=None, extras=None, lift=None, int_dtype=None,
-                   cost_scale=1.0):
+                   cost_scale=1.0, noise_level=None, date_style=None):
   """A geo experiment frame description (geo x date x group/period/response/cost).
 
   Returns dict: frame (DataFrame, columns date geo group period response cost), plus the
@@ -382,7 +402,16 @@ def gen_experiment(r, g, n_pre=None, n_test=None, n_cool=None, n_ctl=None, n_trt
   D = n_pre + n_gap + n_test + n_cool + n_after
   periods = [0] * n_pre + [-1] * n_gap + [1] * n_test + [2] * n_cool + [3] * n_after
   origin = datetime.date(2020, 1, 1) + datetime.timedelta(days=r.randrange(0, 700))
-  dates = [pd.Timestamp(origin + datetime.timedelta(days=i)) for i in range(D)]
+  if date_style is None:
+    date_style = weighted(r, [('ts', 8), ('tz', 1), ('ns', 1)])
+  if date_style == 'tz':
+    dates = [pd.Timestamp(origin + datetime.timedelta(days=i), tz='UTC') for i in range(D)]
+  elif date_style == 'ns':
+    dates = [pd.Timestamp(origin + datetime.timedelta(days=i)).as_unit('ns') for i in range(D)]
+  else:
+    dates = [pd.Timestamp(origin + datetime.timedelta(days=i)) for i in range(D)]
+  if noise_level is None:
+    noise_level = weighted(r, [(0.4, 12), (1e-6, 1)])     # rarely: the treatment follows the control almost perfectly
   t = np.arange(D)
   if shape == 'iid':
     base = g.normal(0, 1.0, size=D)
@@ -409,7 +438,7 @@ def gen_experiment(r, g, n_pre=None, n_test=None, n_cool=None, n_ctl=None, n_trt
   for grp, cnt in groups:
     for _ in range(cnt):
       size = math.exp(g.normal(0, 0.5))
-      noise = g.normal(0, 0.4, size=D)
+      noise = g.normal(0, noise_level, size=D)
       resp = size * (level + 2.0 * base + noise)
       cost = np.zeros(D)
       if cost_mode == 'variable':
@@ -420,6 +449,21 @@ def gen_experiment(r, g, n_pre=None, n_test=None, n_cool=None, n_ctl=None, n_trt
         cost = size * (2.0 + 0.05 * g.normal(0, 1, size=D)) * np.array([p == 0 for p in periods])
       elif cost_mode == 'control_test_only' and grp == 1:
         cost = size * 0.5 * in_test
+      elif cost_mode == 'late_treatment_spend':
+        # control spend ramps steadily; the treatment group only starts spending part-way through the pre-period,
+        # so the fitted line is negative on early dates although no spend is ever negative
+        ramp = np.linspace(1.0, 12.0, D) + 0.05 * g.normal(0, 1, size=D)
+        if grp == 1:
+          cost = size * ramp
+        elif grp == 2:
+          start = max(1, n_pre // 2)
+          cost = size * np.where(np.arange(D) >= start, 0.9 * (ramp - ramp[start]) + 0.02 * np.abs(g.normal(0, 1, size=D)), 0.0)
+      elif cost_mode == 'control_pinned' and grp in (1, 2):
+        # control spend fluctuates before the test and is pinned to a fixed daily budget afterwards
+        cost = size * (5.0 + 0.3 * base + 0.05 * g.normal(0, 1, size=D))
+        cost = np.maximum(cost, 1e-3)
+        if grp == 1:
+          cost = np.where(np.array([p in (1, 2, 3) for p in periods]), 4.0, cost)
       if grp == 2:
         resp = resp + size * lift * in_test
         cost = cost + size * pick(r, [3.0, 10.0]) * in_test
@@ -439,6 +483,7 @@ def gen_experiment(r, g, n_pre=None, n_test=None, n_cool=None, n_ctl=None, n_trt
   return {'frame': frame, 'int_dtype': bool(int_dtype), 'n_pre': n_pre, 'n_test': n_test, 'n_cool': n_cool, 'n_gap': n_gap,
           'n_after': n_after, 'n_ctl': n_ctl, 'n_trt': n_trt, 'cost_mode': cost_mode,
           'shape': shape, 'extras': sorted(extras), 'dates': dates, 'periods': periods, 'cost_scale': cost_scale,
+          'noise_level': noise_level, 'date_style': date_style,
           'lift': lift}
 
 
